@@ -36,7 +36,7 @@ def parseBool01 (s : String) : Option Bool :=
 
 /-- Error tokens.  Fields the policies do not read (`required` of unavailable / write timeout) are part of the
 token (the harness builds the real error from them) and are dropped here. -/
-def parseErr (s : String) : Option Err :=
+def parseErrBase (s : String) : Option Err :=
   match s.splitOn "." with
   | ["ser"] => some .serializationError
   | ["reqser"] => some .cqlRequestSerialization
@@ -80,6 +80,14 @@ def parseErr (s : String) : Option Err :=
     match received.toInt?, required.toInt?, parseWt wt with
     | some r, some _, some w => some (.dbError (.writeTimeout r w))
     | _, _, _ => none
+  | _ => none
+
+/-- `<token>` or `<token>#<n>`: `n` selects a variation of the payload fields that no policy reads (the harness
+builds the real error with it); the model has no such fields and drops it. -/
+def parseErr (s : String) : Option Err :=
+  match s.splitOn "#" with
+  | [b] => parseErrBase b
+  | [b, n] => if n.toNat?.isSome then parseErrBase b else none
   | _ => none
 
 def parsePolicy (s : String) : Option (Policy × Bool) :=
@@ -181,6 +189,69 @@ def showTrace (tr : Trace) : String :=
   let d := listOrDash (tr.decisions.map decName) ","
   s!"A={a} D={d} R={finalName tr.final} S={tr.newSessions}"
 
+/-- `<outcome>@<virtual ms>` -/
+def parseTimedOutcome (s : String) : Option Outcome :=
+  match s.splitOn "@" with
+  | [o, ms] => if ms.toNat?.isSome then parseOutcome o else none
+  | _ => none
+
+/-- One observed attempt of a `spec` line: `<fiber>:<target>:<cl>:<+|->` (`-` = cancelled in flight). -/
+def parseSpecEntry (s : String) : Option (Nat × Nat × Consistency × Bool) :=
+  match s.splitOn ":" with
+  | [f, t, c, fl] =>
+    match f.toNat?, t.toNat?, parseCl c with
+    | some f, some t, some c => if fl == "+" then some (f, t, c, true) else if fl == "-" then some (f, t, c, false) else none
+    | _, _, _ => none
+  | _ => none
+
+/-- Let fiber `f` perform loop iterations until it has made one more attempt (at most `fuel` iterations). -/
+def stepUntilAttempt (P : PolicyFn Sess) (idem : Bool) (o : Nat → Nat → Outcome) (f : Nat) :
+    Nat → List (Fiber Sess) × SharedPlan → Nat → List (Fiber Sess) × SharedPlan
+  | 0, st, _ => st
+  | fuel + 1, st, before =>
+    let st' := runSched P idem o [f] st
+    match st'.1[f]? with
+    | some fb => if fb.log.length > before then st' else if fb.done then st' else stepUntilAttempt P idem o f fuel st' before
+    | none => st'
+
+/-- Run the multi-fiber model on the schedule recovered from the implementation's line.
+`entries` = the observed attempts in global call order with their fiber; fiber `f`'s `j`-th attempt gets the
+scripted outcome of the global call it was (an attempt cancelled in flight ends its fiber). -/
+def specRun (p : Policy) (idem : Bool) (cl0 : Consistency) (plan : List Target) (m : Nat) (os : List Outcome)
+    (impl : String) : String :=
+  match words impl with
+  | [_nw, _sw, rw, aw] =>
+    if !aw.startsWith "A=" then "REJECT unparsable" else
+    match (parseOps (((aw.drop 2).toString).replace "," ";")).mapM parseSpecEntry with
+    | none => "REJECT unparsable"
+    | some entries =>
+      let nF := if idem then 1 + m else 1
+      if entries.any (fun e => e.1 ≥ nF) then s!"REJECT fiber id >= {nF}" else
+      -- per-fiber outcomes: global call k is the (number of earlier entries of the same fiber)-th attempt of its fiber
+      let indexed := entries.zipIdx
+      let outF : Nat → Nat → Outcome := fun f j =>
+        match (indexed.filter (fun e => e.1.1 == f))[j]? with
+        | some (e, k) => if e.2.2.2 then os.getD k .ok else .ok
+        | none => .ok
+      let P := builtin p
+      let init : List (Fiber Sess) × SharedPlan := (List.replicate nF (Fiber.fresh cl0), ⟨plan, 0⟩)
+      let (st, shown) := entries.foldl (fun (acc : (List (Fiber Sess) × SharedPlan) × List String) e =>
+        let st := acc.1
+        let before := match st.1[e.1]? with | some fb => fb.log.length | none => 0
+        let st' := stepUntilAttempt P idem outF e.1 (2 * plan.length + 3) st before
+        let got := match st'.1[e.1]? with
+          | some fb => if fb.log.length > before then
+              match fb.log.head? with
+              | some a => s!"{e.1}:{a.target}:{clName a.cl}:{if e.2.2.2 then "+" else "-"}"
+              | none => s!"{e.1}:none"
+            else s!"{e.1}:none"
+          | none => s!"{e.1}:none"
+        (st', acc.2 ++ [got])) (init, [])
+      let n := totalAttempts st.1
+      let sess := (st.1.filter (fun fb => fb.loc.sess.isSome)).length
+      s!"N={n} S={sess} {rw} A={listOrDash shown ","}"
+  | _ => "REJECT unparsable"
+
 def run (case _impl : String) : String :=
   match words case with
   | ["dec", pol, _, steps] =>
@@ -206,20 +277,14 @@ def run (case _impl : String) : String :=
         showTrace (Exec.runWith (scripted ds) idem cl0 plan (fun k => os.getD k .ok) (plan.length + ops.length + 2))
       | _, _, _ => "bad-case"
     | _, _ => "bad-case"
-  | ["spec", pol, clplanm, _outs] =>
-    -- speculative execution: several interleaved fibers; checker mode: the implementation's line is accepted
-    -- iff it satisfies `attempts_bounded_speculative` (and the session count of 1 + m fibers)
+  | ["spec", pol, clplanm, outs] =>
+    -- speculative execution: several interleaved fibers.  The implementation's line names the fiber of every
+    -- attempt (in global `run_request_once` call order); the schedule of loop iterations is recovered from it
+    -- and the MODEL (`runSched`) is run on that schedule: its attempts are printed.
     match parsePolicy pol, clplanm.splitOn "/" with
     | some (p, idem), [c, pl, ms] =>
-      match parseCl c, parsePlan pl, ms.toNat?, words _impl with
-      | some _, some plan, some m, [nw, sw, _r] =>
-        match (nw.drop 2).toString.toNat?, (sw.drop 2).toString.toNat? with
-        | some n, some sn =>
-          let fibers := if idem then 1 + m else 1
-          if nw.startsWith "N=" ∧ sw.startsWith "S=" ∧ n ≤ plan.length + fibers * sameTargetBound p ∧ sn ≤ fibers
-          then _impl else s!"REJECT attempts>{plan.length}+{fibers}*{sameTargetBound p} or sessions>{fibers}"
-        | _, _ => "REJECT unparsable"
-      | some _, some _, some _, _ => "REJECT unparsable"
+      match parseCl c, parsePlan pl, ms.toNat?, (parseOps outs).mapM parseTimedOutcome with
+      | some cl0, some plan, some m, some os => specRun p idem cl0 plan m os _impl
       | _, _, _, _ => "bad-case"
     | _, _ => "bad-case"
   | _ => "bad-case"
